@@ -425,11 +425,6 @@ theorem cleanup_noAttach (I : ObjIface σ) (s s' : State σ) (now : Int) (stale 
     · exact NoAttach.nil
     · exact removeObjects_noAttach _ _ _
 
-/-- receiver time of a call -/
-def Op.now : Op → Int
-  | .data _ now _ => now
-  | .cleanup now _ => now
-
 theorem step_attach (I : ObjIface σ) (s s' : State σ) (op : Op) (r : Res) (evs : List Ev)
     (h : step I s op = .ok (s', r, evs)) : AttachSound op.now s' evs := by
   cases op with
